@@ -29,3 +29,35 @@ CHECKS = {
   "The five streaming mechanisms (Uint64Map.EachItem, MemoryFeatureSource.Read, world EachFeature over eachIngestFeature, EachModifiedTag, ReadPBFWithOptions) run with their real goroutines/channels/selects/locks/wait-groups/contexts routed through the scheduler by a build-time source rewriter; for every scenario (items, goroutines, failing position, fail-once/always) every schedule is executed and checked: an error is returned, the call returns (no deadlock), no callback after return, and at most goroutines+capacity further callbacks begin after the first failure in executions that never decline a ready cancellation case.",
   "Code between synchronisation operations runs atomically (data-race freedom assumed; sync/atomic not a scheduling point); map ranges use one fixed order; preemption bound 2 (quick) / 3 (thorough) where the unbounded exploration does not close; deadlines never fire."),
 }
+
+CHECKS.update({
+ "C09": e1("bounded-exhaustive enumeration of integer sequences, reservation/write orders, string multisets and Uint64Map layouts x ID sequences against plain slices/maps",
+  "Every uint64/int sequence of length 0-4 over boundary alphabets through the delta/zigzag codecs, every fixed width, every Reserve x WriteItem order of ByteArraysBuilder for <=4 items, every string multiset, and every Uint64Map layout (bucket bits 1..6/8 x tag bits 0..3) x every ID sequence of length <=4 over boundary IDs with duplicates: FindFirst, FindFirstWithTag, FillTagged, Begin and EachItem(1) against a map oracle.",
+  "64-bit domains are covered by boundary alphabets (2^k, 2^k+-1, all-ones prefixes), not all 2^64 values; EachItem only with succeeding callbacks (errors are C28)."),
+ "C10": e1("exhaustive enumeration at reduced width + full-width boundary alphabets of every bit packing named in the statement; encode/decode round trip on the real functions",
+  "Zigzag, type-and-namespace, value-type/geometry-length, bucket headers for every layout the real block-builder constructor produces (counts 1..2^16/2^20), tile IDs (all tiles z<=9/13), lat/lng point IDs, GB postcodes and ONS codes are round-tripped exhaustively over reduced widths and windows around every 2^k, plus products of ~385-value boundary alphabets at full width.",
+  "The statement's 'decided symbolically' is a different technique family: this is a bounded guarantee over the stated ranges, windows and alphabets, not all 2^64 values (DESIGN 1.1)."),
+ "C19": e1("bounded-exhaustive enumeration of NodeProto trees (every client-sendable variant, literal kind and query case, positions and numeric extremes); FromProto/ToProto twice with equality, position and idempotence oracle",
+  "All expression protos up to depth 3 (4 pruned in thorough): 204 leaf variants x 8 contexts, position triples at every node, query trees to depth 3-4, collections, 1.5M-12M call/lambda trees; e1.Equal(e0), identical Name/Begin/End, second conversion proto.Equal, discrete fields preserved; decoding never panics.",
+  "Inputs rejected by the first FromProto are outside the statement; NaN floats exempt from Equal."),
+ "C31": e1("bounded-exhaustive enumeration of feature IDs (types x 24 namespaces x 371-value boundary alphabet), aliases and codes through every textual/wire codec; order axioms on all pairs and triples",
+  "Every valid ID round-trips through String, JSON, YAML, proto and shell tokens (abbreviated and full); every alias x value alphabet, all postcodes of 5-7 characters over a reduced alphabet (2.4M in thorough) and ONS codes; FeatureID.Less checked irreflexive/asymmetric/total on all pairs, transitive on all triples and equal to the compact index order under 5 namespace tables.",
+  "64-bit values by boundary alphabet; namespace tables under 8192 entries."),
+ "C33": e1("bounded-exhaustive enumeration of point/line/polygon-with-holes geometries on a pixel lattice x zooms x tag maps through renderer.EncodeTile, decoded by an independent MVT command decoder",
+  "215k (18M thorough) tile features: all line strings of 1-3/4 lattice vertices, triangles, squares/L-shapes with every assignment of hole shapes, multi-shell polygons, at 7/23 zooms; decoded integer coordinates must equal an independent projection, rings closed, outer and hole windings opposite, tag indices resolve to the feature's map.",
+  "Vertices at least 0.1 px from pixel borders; rings under 1000 vertices (EncodeTile simplifies above that by design)."),
+ "C34": e1("exhaustive enumeration of all point sequences of length 2..6/7 on a 3x3/4x4 grid x 5 tolerances; Simplify vs the repository's recursive reference (accessor) and an independent exact-integer Douglas-Peucker",
+  "3M (1.4G thorough) inputs: Simplify equals the recursive reference element-wise, keeps first and last, is a subsequence, does not mutate its input; the reference is cross-checked against an exact-arithmetic implementation up to exact ties.",
+  "Integer grid coordinates; both implementations share the repository's split convention (observation recorded in checks/c34/note_textbook_split.diff, outside the statement)."),
+ "C30": e1("bounded-exhaustive enumeration of street networks (all subsets of an 11/14-way menu over 6 nodes) x origins x limits x weights; Bellman-Ford over World.Traverse as oracle",
+  "For every network subset (shared nodes, loops, one-way in both directions, unusable highways, weight factors), every origin, 5 limits and 2-5 weight functions on basic and compact worlds: every point under the limit is reported, reported distances equal true shortest distances (1e-9), every route is a chain of usable segments from the origin with that cost, ExpandSearchTo is exact for its destination.",
+  "A point exactly at the limit may or may not be reported; ComputeAccessibility compared only when weights are metres; positive weight factors (Dijkstra precondition)."),
+ "C25": e3("stateless model checking of the real map-parallel collection (dispatcher, workers, errgroup, consumer) under the controlled scheduler against a sequential lazy-map reference",
+  "Every interleaving (preemption bound 2/3, unbounded where exploration closes) of map-parallel over 0-3 (4-5 for the hold-two-results shape; 0-5 thorough) items, 2-3 cores, a failing item or failing input iterator at every position: the yielded sequence is map's, or a prefix of it followed by the error; the consumer always finishes.",
+  "Mapped function yields once per call; consumer drains to the end; atomic steps between synchronisation operations."),
+ "C40": e3("stateless model checking of the real gRPC service methods called from 2-3 client goroutines under the controlled scheduler; outcome must equal one of the serial orders (all permutations run on a fresh service)",
+  "45 request pairs (thorough: +84 triples) over read-only, unconditional, read-dependent, other-world, add-world-with-change, delete-world, list-worlds and failing requests: every interleaving at the RWMutex/mutex points; no deadlock; (responses, final worlds by ID with tags) equals a serial outcome. Non-serialisable outcomes are classified by an explicit simulation of the split evaluate/apply protocol.",
+  "Known finding: write skew between read-dependent changes (design-level; recorded). One request per client; lock-free code between lock operations is atomic."),
+})
+ENGINES[1]["serves_properties"] += ["C09", "C10", "C19", "C31", "C33", "C34", "C30"]
+ENGINES[3]["serves_properties"] += ["C25", "C40"]
